@@ -22,22 +22,31 @@ def initState (field sbox n t rf rp : Nat) : Nat :=
   ofBits (beBits 2 field ++ beBits 4 sbox ++ beBits 12 n ++ beBits 12 t ++ beBits 10 rf ++ beBits 10 rp
     ++ List.replicate 30 1)
 
-/-- One LFSR step: new bit `b62 ⊕ b51 ⊕ b38 ⊕ b23 ⊕ b13 ⊕ b0`, shifted in at position 79. -/
-def step (s : Nat) : Nat × Nat :=
-  let b := (s / 2 ^ 62 + s / 2 ^ 51 + s / 2 ^ 38 + s / 2 ^ 23 + s / 2 ^ 13 + s) % 2
-  (b, s / 2 + b * 2 ^ 79)
+/-- Evaluate `s` before continuing (makes the kernel normalise the state to a literal at every
+step instead of carrying a growing unevaluated term). -/
+def force {α : Type} (s : Nat) (k : Nat → α) : α :=
+  match s with
+  | 0 => k 0
+  | n + 1 => k (n + 1)
+
+/-- New bit of the LFSR: `b62 ⊕ b51 ⊕ b38 ⊕ b23 ⊕ b13 ⊕ b0`. -/
+def outBit (s : Nat) : Nat :=
+  (s / 2 ^ 62 + s / 2 ^ 51 + s / 2 ^ 38 + s / 2 ^ 23 + s / 2 ^ 13 + s) % 2
+
+/-- One LFSR step: the new bit is shifted in at position 79. -/
+def stepS (s : Nat) : Nat := s / 2 + outBit s * 2 ^ 79
 
 def discard : Nat → Nat → Nat
   | 0, s => s
-  | n + 1, s => discard n (step s).2
+  | n + 1, s => force (stepS s) (discard n)
 
 /-- Self-shrinking output: read bit pairs, output the second bit of the first pair whose first bit is 1. -/
 def nextBit : Nat → Nat → Option (Nat × Nat)
   | 0, _ => none
   | f + 1, s =>
-    let a := step s
-    let b := step a.2
-    if a.1 = 1 then some (b.1, b.2) else nextBit f b.2
+    force (stepS s) fun s1 =>
+    force (stepS s1) fun s2 =>
+    if outBit s = 1 then some (outBit s1, s2) else nextBit f s2
 
 /-- `n` output bits, most significant first. -/
 def bits : Nat → Nat → Nat → Option (Nat × Nat)
@@ -45,7 +54,7 @@ def bits : Nat → Nat → Nat → Option (Nat × Nat)
   | n + 1, acc, s =>
     match nextBit 200 s with
     | none => none
-    | some (b, s') => bits n (2 * acc + b) s'
+    | some (b, s') => force (2 * acc + b) fun acc' => force s' fun s'' => bits n acc' s''
 
 /-- Next field element: `n`-bit candidates until one is below `p`. -/
 def elem (p n : Nat) : Nat → Nat → Option (Nat × Nat)
@@ -74,20 +83,20 @@ def takeElems (p n : Nat) : Nat → Nat → Option (List Nat × Nat)
       | none => none
       | some (l, s'') => some (v :: l, s'')
 
-/-- The whole check: the `(R_F + R_P)·t` round constants in order, then `2t` pairwise distinct elements
-`x₀…x_{t-1}, y₀…y_{t-1}` with `MDS[i][j]·(xᵢ + yⱼ) = 1 (mod p)`. -/
-def check (p n t rf rp : Nat) (rc mds : List (List Nat)) : Bool :=
-  let s0 := discard 160 (initState 1 0 n t rf rp)
-  match checkElems p n rc.flatten s0 with
+/-- The next `2t` elements `x₀…x_{t-1}, y₀…y_{t-1}` are pairwise distinct and
+`MDS[i][j]·(xᵢ + yⱼ) = 1 (mod p)`. -/
+def mdsCheck (p n t : Nat) (mds : List (List Nat)) (s1 : Nat) : Bool :=
+  match takeElems p n (2 * t) s1 with
   | none => false
-  | some s1 =>
-    match takeElems p n (2 * t) s1 with
-    | none => false
-    | some (xy, _) =>
-      let xs := xy.take t
-      let ys := xy.drop t
-      xy.Nodup &&
-      (List.range t).all (fun i => (List.range t).all (fun j =>
-        ((mds.getD i []).getD j 0 * (xs.getD i 0 + ys.getD j 0)) % p == 1))
+  | some (xy, _) =>
+    xy.Nodup &&
+    (List.range t).all (fun i => (List.range t).all (fun j =>
+      ((mds.getD i []).getD j 0 * ((xy.take t).getD i 0 + (xy.drop t).getD j 0)) % p == 1))
+
+/-- The whole check: the `(R_F + R_P)·t` round constants in order, then the Cauchy MDS matrix. -/
+def check (p n t rf rp : Nat) (rc mds : List (List Nat)) : Bool :=
+  match checkElems p n rc.flatten (discard 160 (initState 1 0 n t rf rp)) with
+  | none => false
+  | some s1 => mdsCheck p n t mds s1
 
 end MidnightZK.C07.Grain
